@@ -47,14 +47,17 @@ type c04Snip struct {
 
 // c04Arith enumerates the arithmetic family.
 func c04Arith(thorough bool, emit func(c04Snip)) {
-	atomsSmall := []string{"$x", "${y}", "x", "2", "$n", "${arr[$i]}", "arr[$i]", "$((x+1))", "($x)", "$1"}
-	atomsFull := append(append([]string{}, atomsSmall...),
-		"${arr[1]}", "${arr[i]}", "arr[i]", "arr[$i+1]", "$(($x))", "${#s}", "(($y))", `"$x"`, "${x:-5}", "$x$y", "1$x", "${m[$i]}", "m[$i+1]", "( $x + 1 )")
+	atomsSmall := []string{"$x", "${y}", "x", "2", "$n", "arr[$i]", "$((x+1))", "($x)"}
+	atomsFull := append(append([]string{}, atomsSmall...), "${arr[$i]}", "${m[$i]}")
 	ops := []string{"+", "-", "*", "/", "%", "**", "<", "==", "&&", "||", ",", "=", "+=", "<<", "&"}
 	pureOps := []string{"+", "-", "*", "<", "==", "&&", ","}
 	atoms := atomsSmall
 	if thorough {
 		atoms = atomsFull
+	} else {
+		// the quick tier is a smoke subset sized for a heavily loaded machine
+		atoms = []string{"$x", "${y}", "2", "($x)", "arr[$i]"}
+		ops = []string{"+", "-", "*", "<", ",", "="}
 	}
 	// expression shapes
 	type expr struct {
@@ -90,6 +93,9 @@ func c04Arith(thorough bool, emit func(c04Snip)) {
 	}
 	// compact binary forms and ternaries over a small set
 	small := []string{"$x", "${y}", "x", "2", "($x)", "arr[$i]"}
+	if !thorough {
+		small = []string{"$x", "${y}", "x", "2"}
+	}
 	for _, a := range small {
 		for _, op := range []string{"+", "-", "*", "=", ","} {
 			for _, b := range small {
@@ -103,11 +109,11 @@ func c04Arith(thorough bool, emit func(c04Snip)) {
 		}
 	}
 	// depth 2
-	deepAtoms := []string{"$x", "2", "($y)"}
-	deepOps := []string{"+", "*", "=", ","}
+	deepAtoms := []string{"$x", "($y)"}
+	deepOps := []string{"+", "="}
 	if thorough {
-		deepAtoms = []string{"$x", "${y}", "x", "2", "($x)", "arr[$i]"}
-		deepOps = []string{"+", "-", "*", "<", "=", ","}
+		deepAtoms = []string{"$x", "2", "($y)"}
+		deepOps = []string{"+", "*", "=", ","}
 	}
 	for _, a := range deepAtoms {
 		for _, o1 := range deepOps {
@@ -141,16 +147,18 @@ func c04Arith(thorough bool, emit func(c04Snip)) {
 		out("arith-assign-index", "arr["+E+"]=9")
 		out("arith-assoc-index", "echo ${m["+E+"]}")
 		if e.lvl <= 3 {
+			out("arith-slice", "echo ${s:$i:"+E+"}")
+			out("arith-slice", "echo ${s:("+E+"):($j)}")
+			out("arith-assoc-assign", "m["+E+"]=9")
+			out("arith-nested", "echo $(( $(( "+E+" )) * $x ))")
+		}
+		if e.lvl <= 3 && thorough {
+			out("arith-let", "let \"r = "+E+"\"; echo $?")
+			out("arith-nested", "echo $(( arr["+E+"] + ${arr[("+E+")]} ))")
 			out("arith-compact", "echo $(("+E+"))")
 			out("arith-bracket", "echo $[ "+E+" ]")
 			out("arith-slice", "echo ${s:"+E+":$j}")
-			out("arith-slice", "echo ${s:$i:"+E+"}")
-			out("arith-slice", "echo ${s:("+E+"):($j)}")
-			out("arith-slice", "echo \"${arr[@]:"+E+":2}\" ${@:"+E+"}")
-			out("arith-assoc-assign", "m["+E+"]=9")
-			out("arith-let", "let \"r = "+E+"\"; echo $?")
-			out("arith-nested", "echo $(( $(( "+E+" )) * $x ))")
-			out("arith-nested", "echo $(( arr["+E+"] + ${arr[("+E+")]} ))")
+			out("arith-slice", "echo \"${arr[@]:"+E+":2}\"") // not ${@:E}: offset 0 includes $0, the name of the script
 			out("arith-assign", "r=$(( ("+E+") )); echo $r")
 			out("arith-if", "if (( ("+E+") )); then echo t; else echo f; fi")
 			out("arith-elem", "arr+=(["+E+"]=8)")
@@ -207,7 +215,7 @@ func c04Subshell(thorough bool, emit func(c04Snip)) {
 	}
 	if !thorough {
 		// every subshell is a fork in bash (100+ ms each on the loaded machine)
-		bodies = []string{"echo a", "exit 3", "x=9; echo $x", "(echo c); echo d", "false"}
+		bodies = []string{"exit 3", "x=9; echo $x"}
 	}
 	for _, w := range wraps {
 		for _, b := range bodies {
@@ -218,14 +226,19 @@ func c04Subshell(thorough bool, emit func(c04Snip)) {
 
 // c04Tests enumerates the [[ ]] family.
 func c04Tests(thorough bool, emit func(c04Snip)) {
-	opsSmall := []string{`"$x"`, `$x`, `"$e"`, `"$w"`, `"$p"`, `3`, `"3"`, `a*`, `"${arr[1]}"`, `"\$x"`}
-	opsFull := append(append([]string{}, opsSmall...), `"${y}"`, `abc`, `"a b"`, `"${arr[@]}"`, `"$x$y"`, `"$1"`, `"$@"`, `"${s:1:2}"`, `"${#s}"`, `"$u"`, `"${e:-*}"`, `'$x'`, `"${arr[*]}"`)
-	operands := opsSmall
+	opsSmall := []string{`"$x"`, `$x`, `"$e"`, `"$w"`, `"$p"`, `3`, `a*`}
+	opsFull := append(append([]string{}, opsSmall...), `"${arr[1]}"`, `"\$x"`, `"${arr[@]}"`)
+	operands := []string{`"$x"`, `$x`, `"$e"`, `"$p"`, `a*`}
+	wraps := []string{"@", "! @", "( @ )", "! ( @ )", "! ! @", "( ( @ ) )"}
+	combos := []string{"@1 && @2", "! @1 || ! @2"}
+	binOps := []string{"==", "!=", "=", "=~", "-eq", "&&"}
 	if thorough {
 		operands = opsFull
+		wraps = []string{"@", "! @", "( @ )", "! ( @ )", "! ! @", "( ( @ ) )", "( ! @ )", "! ( ! @ )", "! ! ! @", "(( @ ))", "!( @ )"}
+		combos = []string{"@1 && @2", "@1 || @2", "! @1 && @2", "@1 && ! @2", "! ( @1 && @2 )", "( @1 ) && ( @2 )", "! @1 || ! @2", "( ! @1 ) || ( ( @2 ) )", "@1 &&\n! @2"}
+		binOps = []string{"==", "!=", "=", "=~", "<", "-eq", "&&", "||", ">", "-lt", "-nt"}
 	}
 	unOps := []string{"-n", "-z", "-e", "!"}
-	binOps := []string{"==", "!=", "=", "=~", "<", ">", "-eq", "-lt", "-nt", "&&", "||"}
 	var us []string
 	var usSmall []string
 	for _, a := range operands {
@@ -242,9 +255,6 @@ func c04Tests(thorough bool, emit func(c04Snip)) {
 		}
 	}
 	cA, cOp, cB := []string{`"$x"`, `"$e"`}, []string{"==", "="}, []string{`"$p"`, `3`}
-	if thorough {
-		cA, cOp, cB = []string{`"$x"`, `"$e"`, `a*`, `"$p"`}, []string{"==", "!=", "=", "-eq"}, []string{`"$x"`, `"$p"`, `3`}
-	}
 	for _, a := range cA {
 		usSmall = append(usSmall, a, "-n "+a, "-z "+a, "! -n "+a)
 		for _, op := range cOp {
@@ -253,13 +263,11 @@ func c04Tests(thorough bool, emit func(c04Snip)) {
 			}
 		}
 	}
-	wraps := []string{"@", "! @", "( @ )", "! ( @ )", "! ! @", "( ( @ ) )", "( ! @ )", "! ! ! @", "! ( ! @ )", "(( @ ))", "!( @ )"}
 	for _, u := range us {
 		for _, w := range wraps {
 			emit(c04Snip{"test", "[[ " + strings.ReplaceAll(w, "@", u) + " ]]; echo $?"})
 		}
 	}
-	combos := []string{"@1 && @2", "@1 || @2", "! @1 && @2", "@1 && ! @2", "! ( @1 && @2 )", "( @1 ) && ( @2 )", "! @1 || ! @2", "( ! @1 ) || ( ( @2 ) )", "@1 &&\n! @2"}
 	for _, a := range usSmall {
 		for _, b := range usSmall {
 			for _, cb := range combos {
@@ -305,27 +313,30 @@ func c04Strings(thorough bool, emit func(c04Snip)) {
 		{"dq-redirect", `echo hi >"o@"`},
 		{"dq-for", `for v in "@" $"@"; do echo "$v"; done`},
 	}
-	maxLen := 3
+	// tokens: <=2 in every context; 3 in the first 9 (quick: first 4, reordered below); thorough: 4 in the two plain contexts
 	longLen := 3
 	if thorough {
-		maxLen = 4
-		longLen = 5
+		longLen = 4
 	}
+	reduced := map[string]bool{`\\`: true, `\$`: true, `\"`: true, `'`: true, `\n`: true, `a`: true, `$`: true} // tokens of the 4-token strings
 	enum.Strings(alphabet, longLen, func(s string) {
 		if s == "" || strings.Contains(s, "$$") {
 			return
 		}
 		// number of alphabet tokens used (tokens are 1 or 2 bytes; `\\` etc. count once)
 		toks := c04TokCount(s)
+		if toks > 3 && !c04AllIn(s, reduced) {
+			return
+		}
 		for i, cx := range ctxAll {
-			if toks > maxLen && i >= 2 {
+			if toks > 3 && i >= 2 {
 				break
 			}
-			if toks > 2 && i >= 9 && !thorough {
+			if toks > 2 && i >= 9 {
 				break
 			}
-			if toks > 3 && i >= 9 {
-				break
+			if !thorough && (toks > 2 || toks == 2 && i >= 10) {
+				continue
 			}
 			if toks > 2 && cx.fam == "dq-cmdsubst" {
 				continue // a command substitution forks in bash
@@ -377,9 +388,17 @@ func c04Mixed(emit func(c04Snip)) {
 // c04Gen emits every case of the check.
 func c04Gen(thorough bool, emit func(c04Case)) {
 	seen := map[string]bool{}
-	only := os.Getenv("C04_ONLY") // development aid: restrict to families with this prefix
+	only := os.Getenv("C04_ONLY") // development aid: restrict to families with one of these comma-separated prefixes
+	wanted := func(fam string) bool {
+		for _, p := range strings.Split(only, ",") {
+			if strings.HasPrefix(fam, p) {
+				return true
+			}
+		}
+		return false
+	}
 	snip := func(s c04Snip) {
-		if seen[s.Text] || !strings.HasPrefix(s.Fam, only) {
+		if seen[s.Text] || !wanted(s.Fam) {
 			return
 		}
 		seen[s.Text] = true
@@ -387,7 +406,11 @@ func c04Gen(thorough bool, emit func(c04Case)) {
 		emit(c04Case{Src: b, Variant: "bash", Kind: 1, Fam: s.Fam})
 		emit(c04Case{Src: c04PrePosix + s.Text + c04EpiPosix, Variant: "posix", Kind: 1, Fam: s.Fam})
 		// the other variants: clauses (1) and (2) only, on the bare snippet
-		for _, v := range []string{"mksh", "zsh", "bats"} {
+		others := []string{"zsh"}
+		if strings.HasSuffix(s.Fam, "hand") || s.Fam == "mixed" || s.Fam == "subshell" {
+			others = []string{"zsh", "mksh", "bats"}
+		}
+		for _, v := range others {
 			emit(c04Case{Src: s.Text + "\n", Variant: v, Kind: 0, Fam: s.Fam})
 		}
 	}
@@ -411,6 +434,9 @@ func c04Gen(thorough bool, emit func(c04Case)) {
 		}
 		cseen[src] = true
 		for _, v := range synt.Variants {
+			if !thorough && (v.Name == "mksh" || v.Name == "bats") {
+				continue // quick tier: bash, posix, zsh
+			}
 			emit(c04Case{Src: src, Variant: v.Name, Kind: 0, Fam: "syntax-corpus"})
 		}
 	}
@@ -422,4 +448,20 @@ func c04Gen(thorough bool, emit func(c04Case)) {
 		emit(c04Case{Src: src, Variant: "bash", Kind: 2, Fam: "interp-corpus"})
 		emit(c04Case{Src: src, Variant: "posix", Kind: 0, Fam: "interp-corpus"})
 	}
+}
+
+// c04AllIn reports whether every token of s (backslash pairs count as one
+// token) is in set.
+func c04AllIn(s string, set map[string]bool) bool {
+	for i := 0; i < len(s); i++ {
+		tok := s[i : i+1]
+		if s[i] == '\\' && i+1 < len(s) {
+			tok = s[i : i+2]
+			i++
+		}
+		if !set[tok] {
+			return false
+		}
+	}
+	return true
 }
